@@ -1,0 +1,5 @@
+//go:build !verif
+
+package staticsources
+
+func verifNewInstance(*Handler) bool { return false }
